@@ -30,7 +30,6 @@ import (
 	"strings"
 	"sync"
 	"sync/atomic"
-	"syscall"
 	"time"
 
 	"github.com/siglens/siglens/pkg/ast/pipesearch"
@@ -500,17 +499,35 @@ var c11RaceErr string
 func c11RaceBinary() (string, string) {
 	c11RaceOnce.Do(func() {
 		exe, _ := os.Executable()
-		build := filepath.Dir(exe)
-		verif := filepath.Dir(build)
-		lock, err := os.OpenFile(filepath.Join(build, "go.lock"), os.O_CREATE|os.O_RDWR, 0o644)
-		if err == nil {
-			defer lock.Close()
-			syscall.Flock(int(lock.Fd()), syscall.LOCK_EX)
-			defer syscall.Flock(int(lock.Fd()), syscall.LOCK_UN)
+		dir := filepath.Dir(exe)
+		// files of the build that produced this binary: private check run → next to it; manual build → build/manual
+		work := dir
+		_, e1 := os.Stat(filepath.Join(work, "overlay.json"))
+		_, e2 := os.Stat(filepath.Join(work, "go.mod"))
+		if e1 != nil || e2 != nil {
+			work = filepath.Join(dir, "manual")
 		}
-		out := filepath.Join(build, "corr_race")
-		cmd := exec.Command("go", "build", "-race", "-tags", "verif", "-overlay", filepath.Join(build, "overlay.json"), "-o", out, "./cmd/corr")
-		cmd.Dir = filepath.Join(verif, "harness")
+		harness := ""
+		for d := dir; d != "/" && d != "."; d = filepath.Dir(d) {
+			if _, err := os.Stat(filepath.Join(d, "harness", "cmd", "corr")); err == nil {
+				harness = filepath.Join(d, "harness")
+				break
+			}
+		}
+		if harness == "" {
+			c11RaceErr = "harness directory not found above " + dir
+			return
+		}
+		for _, f := range []string{"overlay.json", "go.mod"} {
+			if _, err := os.Stat(filepath.Join(work, f)); err != nil {
+				c11RaceErr = "build file missing: " + filepath.Join(work, f)
+				return
+			}
+		}
+		out := filepath.Join(work, "corr_race")
+		cmd := exec.Command("go", "build", "-race", "-modfile", filepath.Join(work, "go.mod"), "-tags", "verif",
+			"-overlay", filepath.Join(work, "overlay.json"), "-o", out, "./cmd/corr")
+		cmd.Dir = harness
 		cmd.Env = append(os.Environ(), "GOFLAGS=-mod=mod", "GOPROXY=off", "GOSUMDB=off", "GOTOOLCHAIN=local", "CGO_ENABLED=1")
 		b, err := cmd.CombinedOutput()
 		if err != nil {
